@@ -4,7 +4,7 @@ patch=$1; prop=$2; tier=${3:-quick}
 cd /repo || exit 2
 if [ -n "$(git status --porcelain)" ]; then echo "repo not clean"; exit 2; fi
 git apply "$patch" || { echo "patch does not apply"; exit 2; }
-cd /verif
+cd "$(dirname "$0")/.."
 out=$(./check $prop $tier 2>&1); rc=$?
 git -C /repo checkout -- . ; git -C /repo clean -fdq
 echo "rc=$rc"
